@@ -8,5 +8,7 @@ CONSTANTS
   Lifecycle = "inline"
   SecondCheck = TRUE
   Filter = TRUE
+  MaxFail = 0
+  GiveBack = FALSE
   MaxSteps = 40
 INVARIANTS Emit GenInvariants
